@@ -6,7 +6,7 @@ TY_TB = [
 PROPS = {
     "C16": {
         "harness": "vh-types",
-        "level_text": "Kernel-checked theorems about an executable Lean model of union_type / union_type_all / can_use_structural_union / LuaType::from_vec and of check_type_compact (with its level guard) for the annotation fragment: batch union = pairwise fold for every list and environment (up to the order of union members, which is the equality of LuaUnionType); reflexivity for every well-formed type (decidable wf: declared classes, unions of distinct atoms, arrays / tuples / table<...> / records nested arbitrarily, within an explicit guard-level and fuel budget), the union-member law for unions of atoms, acceptance of every descendant where an ancestor is expected for inheritance chains of any length (completeness of the is_sub_type_of walk on every graph), any/unknown on both sides, and the guard's TypeRecursion branch for arrays nested 51+ deep; the model is compared with the real functions on generated declarations/types/lists/pairs every run, and the laws are evaluated on the real checker independently.",
+        "level_text": "Kernel-checked theorems about an executable Lean model of union_type / union_type_all / can_use_structural_union / LuaType::from_vec and of check_type_compact (with its level guard) for the annotation fragment: batch union = pairwise fold for every list and environment (up to the order of union members, which is the equality of LuaUnionType); reflexivity for every well-formed type (decidable wf: declared classes, unions of distinct atoms, arrays / tuples / table<...> / records nested arbitrarily, within an explicit guard-level and fuel budget), extended (wfA) to references to anything - classes, aliases including recursive ones, undeclared names - standing alone, as tuple members, table<...> parameters and record fields at any nesting, and as array elements when the name does not resolve to any, never or a nil-free union; the union-member law for unions of atoms and for unions of atoms plus one compound member (array / tuple / table<...> / record of any nesting; atoms against a compound type and a compound type against atoms are proved to be answered ok / TypeNotMatch, never a hard error that would abort the member scan) together with the reflexivity of such unions, combined in one decidable predicate wfB (arbitrary references and unions with at most one distinct compound member in every position, array elements included), acceptance of every descendant where an ancestor is expected for inheritance chains of any length (completeness of the is_sub_type_of walk on every graph), any/unknown on both sides, and the guard's TypeRecursion branch for arrays nested 51+ deep; the model is compared with the real functions on generated declarations/types/lists/pairs every run, and the laws are evaluated on the real checker independently.",
         "level_note": "Trusted: Lean kernel, harness serialiser, the differential run as the tie (not a proof about the Rust). Modelled: db_index/type/type_ops/union_type.rs, LuaType::from_vec, LuaUnionType::{from_vec,into_vec,eq}, get_real_type, semantic/type_check/{mod,simple_type,ref_type,sub_type,complex_type/*} restricted to the fragment (no generics/enums/members/variadics/table literals); types outside the fragment are counted and skipped.",
         "trusted_base": TY_TB,
         "assumptions": [
@@ -18,7 +18,7 @@ PROPS = {
     },
     "C17": {
         "harness": "vh-types",
-        "level_text": "Kernel-checked theorems about an executable Lean model of TypeHumanizer at RenderLevel::Documentation (layout as a syntax tree, level stepping, item limits, depth guard) and of the doc type parser + infer_type for the C17 sub-grammar: for every syntax tree of the sub-grammar the parser reads back exactly what the printer wrote, hence for every type that fits, parsing the rendering consumes it completely and converts the very tree the renderer laid out (no regrouping of unions / optionals / arrays, no changed literal token); for basic kinds, literals, references and arrays of them the full statement parse(render t) = t is proved; the renderer and the reader models are compared with humanize_type and with the real annotation analysis on generated types every run, and render -> `---@type` -> compare is evaluated on the implementation independently. Partial: that the conversion of the laid-out tree equals the original type up to member order is proved for atoms only and otherwise checked by the runs.",
+        "level_text": "Kernel-checked theorems about an executable Lean model of TypeHumanizer at RenderLevel::Documentation (layout as a syntax tree, level stepping, item limits, depth guard) and of the doc type parser + infer_type for the C17 sub-grammar: for every syntax tree of the sub-grammar the parser reads back exactly what the printer wrote, hence for every type that fits, parsing the rendering consumes it completely and converts the very tree the renderer laid out (no regrouping of unions / optionals / arrays, no changed literal token); the full statement parse(render t) = t is proved for basic kinds, doc literals, non-alias references, arrays, table<...> of any arity, name-keyed records and `T?` over these, nested to any depth the renderer does not truncate; for a union of any number of distinct such members (with or without nil) parse(render t) = readNorm t is proved, where readNorm is the reader's `|`-fold (from_vec of the two sides) followed by the `?` reader, and readNorm t is proved to have exactly the members of t (order aside; `any?`, which reads back as `any`, excluded); the renderer and the reader models are compared with humanize_type and with the real annotation analysis on generated types every run, and render -> `---@type` -> compare is evaluated on the implementation independently. Partial: unions whose members are themselves multi-member unions, member lists with duplicates (never built by LuaType::from_vec), references to aliases and the `unknown` kind are not covered by the conversion theorems and are checked by the runs only.",
         "level_note": "Trusted: Lean kernel, harness serialiser, differential runs as the tie; the character level (escaping, lexing) is modelled and compared but not part of the theorem. Modelled: humanize_type.rs write_type/write_union_type/write_array_type/write_table_generic_type/write_object_type/write_hover_escape_string, grammar/doc/types.rs parse_type..parse_suffixed_type, infer_type for names/literals/nullable/array/union/table/object.",
         "trusted_base": TY_TB + ["the text layer (showType / lex) of the model is tied by the runs only"],
         "assumptions": [
